@@ -624,6 +624,10 @@ RULES = {
     # `*X <= *Y` for a type whose partial_cmp is Some(cmp): std's default `le` is `matches!(partial_cmp, Some(Less | Equal))`
     "R16": Rule("R16", "*X <= *Y -> (X.cmp(Y) != Greater)", "* $x <= * $y", "( $x . cmp ( $y ) != core :: cmp :: Ordering :: Greater )"),
     # derived Ord on the Sign enum, called through the method syntax -> named helper carrying the assumed contract
+    "R16g": Rule("R16g", "if n > m { -> if (n.cmp(&m) == Greater) {  (std default `PartialOrd::gt` is `matches!(partial_cmp, Some(Greater))`, and partial_cmp is `Some(self.cmp(other))` for BigUint)",
+                 "if n > m {", "if ( n . cmp ( & m ) == core :: cmp :: Ordering :: Greater ) {"),
+    "R12j": Rule("R12j", "cmp::min(A, B) -> Ord::min(A, B)  (std: `pub fn min<T: Ord>(v1: T, v2: T) -> T { v1.min(v2) }`)",
+                 "cmp :: min ( $$a , $$b )", "Ord :: min ( $$a , $$b )"),
     "R17": Rule("R17", "self.sign.cmp(&other.sign) -> sign_cmp(&self.sign, &other.sign)",
                 "self . sign . cmp ( & other . sign )", "sign_cmp ( & self . sign , & other . sign )"),
     "R2b": Rule("R2b", "Some((&x, y)) => { BODY } -> Some((x_r__, y)) => { let x = *x_r__; BODY }",
